@@ -230,6 +230,8 @@ func (P *Program) applyLemmaConfig(fn *ssa.Function, cfg *RunCfg) {
 			for _, n := range f[1:] {
 				cfg.noVariant[n] = true
 			}
+		case "bytes":
+			cfg.bytesLayer = true
 		case "nostrict":
 			cfg.strict = false
 		case "summary":
